@@ -24,9 +24,9 @@ BackendBroken(x, b) ==
     ELSE LET refs == x.rt[k].backs
              n == Len(refs) IN
          IF Len(b.grp) # n \/ b.xtr # 0 THEN "Servers"
-         ELSE IF \E j \in 1..n : Len(b.grp[j]) # refs[j].s \/ \E a \in 1..Len(b.grp[j]) : b.grp[j][a] < 0 \/ b.grp[j][a] # b.grp[j][1] THEN "Servers"
-         ELSE LET in == [w |-> [j \in 1..n |-> IF refs[j].w < 0 THEN 1 ELSE refs[j].w], l |-> [j \in 1..n |-> refs[j].s], iw |-> 1]
-                  out == [j \in 1..n |-> b.grp[j][1]] IN
+         ELSE IF \E j \in 1..n : Len(b.grp[j]) # ReplOf(refs[j].s) \/ \E a \in 1..Len(b.grp[j]) : b.grp[j][a] < 0 \/ b.grp[j][a] # b.grp[j][1] THEN "Servers"
+         ELSE LET in == [w |-> [j \in 1..n |-> IF refs[j].w < 0 THEN 1 ELSE refs[j].w], l |-> [j \in 1..n |-> ReplOf(refs[j].s)], iw |-> 1]
+                  out == [j \in 1..n |-> IF ReplOf(refs[j].s) = 0 THEN 0 ELSE b.grp[j][1]] IN
               WT!Broken(in, out, "deploy")
 
 (* an admitted, judged pair needs its backend *)
